@@ -31,6 +31,17 @@ def run(pid, tier, seed, replay=None):
                       {"invariant": m.group(1), "item": item}, "database entry %s violates %s" % (item, m.group(1)))
     log("[%s] Reflection.tla: %d database entries checked (%s)" % (pid, expected, counts))
 
+    # ---- C: the library's own lookup functions answer what Reflection.tla computes ----
+    ltrace = os.path.join(OUT, "C16_lookups.ndjson")
+    rbxv(["db-lookups"], stdout_path=ltrace)
+    nl, lfails = validate_cases("ReflectionLookupTrace", ltrace, {"DBJSON": db})
+    for c in lfails:
+        for k, cls, name, what in (c.get("issues") or [[0, "", "", c["clause"]]]):
+            rep.violation("lookup|%s|%s.%s" % (what, cls, name), lambda c=c: {"case": c, "event": find_event(c["part"], c["ep"])},
+                          "%s: %s(%s, %s) differs from Reflection.tla" % (c["ep"], what, cls, name))
+    cleanup(ltrace, rep)
+    log("[%s] lookups: superclasses / has_superclass / find_default_property of %d classes agree with Reflection.tla" % (pid, nl))
+
     # ---- C: closure under the binary codec -------------------------------------------
     env = {"DBJSON": db, "DIALECT": "code"}
     total = 0
